@@ -36,6 +36,46 @@ def _is_literal_atom(a):
     return True
 
 
+def _root_const(t):
+    while z3.is_app(t) and t.num_args() > 0:
+        t = t.arg(0)
+    return t
+
+
+def _is_result_component(t):
+    """ret__f!k  or  (seq.nth ret__f!k <numeral>)"""
+    if z3.is_const(t) and t.decl().kind() == z3.Z3_OP_UNINTERPRETED:
+        return t.decl().name().startswith('ret__')
+    if z3.is_app(t) and t.decl().kind() == z3.Z3_OP_SEQ_NTH and z3.is_int_value(t.arg(1)):
+        a = t.arg(0)
+        return z3.is_const(a) and a.decl().kind() == z3.Z3_OP_UNINTERPRETED and a.decl().name().startswith('ret__')
+    return False
+
+
+def _is_named_value(t):
+    """an application of a specification function, possibly under one constructor (VList(read_node(..)))"""
+    if z3.is_app(t) and t.decl().kind() == z3.Z3_OP_DT_CONSTRUCTOR and t.num_args() == 1:
+        t = t.arg(0)
+    return z3.is_app(t) and t.num_args() > 0 and t.decl().name().startswith('sp_')
+
+
+def _mentions_const(t, c):
+    seen = set()
+    stack = [t]
+    while stack:
+        e = stack.pop()
+        if e.get_id() in seen:
+            continue
+        seen.add(e.get_id())
+        if e.get_id() == c.get_id():
+            return True
+        if z3.is_quantifier(e):
+            stack.append(e.body())
+        elif z3.is_app(e):
+            stack.extend(e.children())
+    return False
+
+
 def _is_value(t):
     return z3.is_int_value(t) or z3.is_string_value(t) or z3.is_true(t) or z3.is_false(t)
 
@@ -72,6 +112,13 @@ def unit_rewrite(pc, goal, rounds=5):
                     l, r = r, l
                 if _is_value(r) and not _is_value(l) and not z3.is_const(l):
                     units.setdefault(l.get_id(), (l, r, c.get_id()))
+                else:
+                    # component k of a callee's result == term not mentioning that result: the component
+                    # is that term elsewhere (what was returned is then talked about in one way only)
+                    for x, y in ((l, r), (r, l)):
+                        if _is_result_component(x) and _is_named_value(y) and not _mentions_const(y, _root_const(x)):
+                            units.setdefault(x.get_id(), (x, y, c.get_id()))
+                            break
             if v and a.decl().kind() == z3.Z3_OP_DT_IS:
                 t = a.arg(0)
                 dt = t.sort()
